@@ -180,4 +180,41 @@ Proof.
   - cbn [nth]. apply IH. destruct Hin as [-> |H]; [|exact H].
     assert (deqb d d = true) by (apply deqb_eq; reflexivity). congruence.
 Qed.
+(* MONOTONE HISTORY: an index handed out once stays valid while the table grows - adding any later
+   digest (new or repeated) moves no earlier entry (chunks_table[digest] = len(chunks_table) appends) *)
+Lemma index_of_app d : forall l l', In d l -> index_of deqb d (l ++ l') = index_of deqb d l.
+Proof.
+  induction l as [|x t IH]; intros l' Hin; [destruct Hin|].
+  cbn [app index_of]. destruct (deqb d x) eqn:E; [reflexivity|].
+  f_equal. apply IH. destruct Hin as [-> |H]; [|exact H].
+  assert (deqb d d = true) by (apply deqb_eq; reflexivity). congruence.
+Qed.
+
+Theorem index_stable_add t d x : In d t -> index_of deqb d (add_digest deqb t x) = index_of deqb d t.
+Proof.
+  intros Hin. unfold add_digest. destruct (memd deqb x t); [reflexivity|]. apply index_of_app. exact Hin.
+Qed.
+
+Theorem index_stable_fold : forall ds t d, In d t ->
+  index_of deqb d (fold_left (add_digest deqb) ds t) = index_of deqb d t.
+Proof.
+  induction ds as [|x ds IH]; intros t d Hin; cbn [fold_left]; [reflexivity|].
+  assert (Hin' : In d (add_digest deqb t x)).
+  { unfold add_digest. destruct (memd deqb x t); [exact Hin|]. apply in_or_app. left. exact Hin. }
+  rewrite (IH _ _ Hin'). apply index_stable_add. exact Hin.
+Qed.
+
+(* the index of a member is inside the table, and two members with one index are one digest *)
+Theorem index_of_lt : forall l d, In d l -> index_of deqb d l < length l.
+Proof.
+  induction l as [|x t IH]; intros d Hin; [destruct Hin|].
+  cbn [index_of length]. destruct (deqb d x) eqn:E; [apply Nat.lt_0_succ|].
+  apply ->Nat.succ_lt_mono. apply IH. destruct Hin as [-> |H]; [|exact H].
+  assert (deqb d d = true) by (apply deqb_eq; reflexivity). congruence.
+Qed.
+
+Theorem index_of_inj l d d' : In d l -> In d' l -> index_of deqb d l = index_of deqb d' l -> d = d'.
+Proof.
+  intros H H' E. rewrite <- (index_of_nth d l d H), <- (index_of_nth d l d' H'), E. reflexivity.
+Qed.
 End Table.
